@@ -24,9 +24,9 @@ pub struct C20;
 pub enum Site {
     /// chmod 000 on this directory ("" = the walk base itself)
     Unreadable(String),
-    /// a dangling link `zd` inside this directory
+    /// a dangling link inside this directory (named `zd`, `0d`, `.d`, `md` or `Ad`, by directory)
     Dangling(String),
-    /// a link `zr` inside this directory to the directory `up` levels above it
+    /// a link (`zr`, `0r`, `.r` or `mr`) inside this directory to the directory `up` levels above it
     Reentrant(String, usize),
 }
 
@@ -58,11 +58,15 @@ fn with_faults(tree: &TreeSpec, sites: &[&Site]) -> (TreeSpec, bool) {
                 }
             },
             Site::Dangling(d) => {
-                let path = if d.is_empty() { "zd".to_string() } else { format!("{}/zd", d) };
+                // the link's name — hence its place among its siblings in any directory order —
+                // varies with the directory (a fault is not always the last child)
+                let name = ["zd", "0d", ".d", "md", "Ad"][d.bytes().map(|b| b as usize).sum::<usize>() % 5];
+                let path = if d.is_empty() { name.to_string() } else { format!("{}/{}", d, name) };
                 t.nodes.push(Node { path, kind: Kind::Dangling, unreadable: false });
             },
             Site::Reentrant(d, up) => {
-                let path = if d.is_empty() { "zr".to_string() } else { format!("{}/zr", d) };
+                let name = ["zr", "0r", ".r", "mr"][(d.bytes().map(|b| b as usize).sum::<usize>() + d.len()) % 4];
+                let path = if d.is_empty() { name.to_string() } else { format!("{}/{}", d, name) };
                 let mut target = d.clone();
                 for _ in 0..*up {
                     target = target.rsplit_once('/').map(|x| x.0.to_string()).unwrap_or_default();
